@@ -29,7 +29,7 @@ def sf_cases(draw):
     a, b = draw(st.integers(2, 48)), draw(st.integers(2, 48))
     if draw(st.booleans()):
         b = a
-    kind = draw(st.sampled_from(["noise", "ramp", "noise", "quad"]))
+    kind = draw(st.sampled_from(["noise", "ramp", "noise", "quad", "column_offsets"]))
     step = draw(st.one_of(st.none(), st.integers(1, 4)))
     nb = draw(st.one_of(st.none(), st.integers(1, 30)))
     return {"a": a, "b": b, "kind": kind, "step": step, "nb": nb, "slope": draw(gen.dyadic(-4, 4, 8)), "slope2": draw(gen.dyadic(-2, 2, 8)),
@@ -45,6 +45,10 @@ def sf_body(ctx, case):
         phase = case["slope"] * rows + case["slope2"] * cols + 0.5
     elif case["kind"] == "quad":
         phase = case["slope"] * rows ** 2 / 8.0 + cols
+    elif case["kind"] == "column_offsets":
+        # integer-valued noise plus a huge tilt across the second axis: differences along the first axis are exact integers
+        rng_ = gen.np_rng(case["seed"])
+        phase = rng_.integers(-8, 9, size=(a, b)).astype(float) + 2.0 ** rng_.integers(14, 30) * cols
     else:
         phase = gen.np_rng(case["seed"]).normal(size=(a, b))
     st_ = 1 if step is None else step
